@@ -178,6 +178,12 @@ func (e *Exec) checkFrame(st *State, cond *smt.Term, key string, a *smt.Term, po
 		}
 		ok := []*smt.Term{isFresh(a, fs.snapAlloc), smt.Eq(a, NilAddr)}
 		for _, l := range fs.locs {
+			if l.key == "@elems" {
+				if b := elemBase(a); b != nil {
+					ok = append(ok, smt.Eq(l.addr, b))
+				}
+				continue
+			}
 			if l.key == key || l.key == "*" {
 				ok = append(ok, smt.Eq(l.addr, a))
 			}
